@@ -34,6 +34,11 @@ PRED = {
     "stall": "Progress",
     "read": "Linearizable-read", "list": "Linearizable-list", "listowner": "Linearizable-listowner", "snapshot": "Linearizable-snapshot",
 }
+# event class used in the signature of each predicate (stable, no random data)
+SIGKIND = {"WatchOrdered.pre-restore-event": "wev", "WatchOrdered.repeated-or-stale-event": "wev", "WatchOrdered": "wev",
+           "WatchListingComplete": "wev", "WatchComplete": "wdone", "ReadAfterEventMonotone": "wrd", "Progress": "stall",
+           "Linearizable-read": "ret-read", "Linearizable-list": "ret-list", "Linearizable-listowner": "ret-listowner",
+           "Linearizable-snapshot": "ret-snapshot"}
 # the two narrow WatchOrdered relaxations of the first (batch) pass; events that needed one are printed as WEAK
 TOLERANT = ("watch-order-xrestore", "watch-order-dup")
 DOC = {
@@ -156,9 +161,12 @@ def name_failure(events, consumed, relax=()):
         if done or not progressed:
             break
     preds = [PRED[x] for x in relax if not (x == "watch-done" and "watch-order" in relax)]
+    last_kind = None
     if not done:
         preds.append("Linearizable")
-    return {"h": h, "events": events, "stuck": events[first], "stuck_index": first + 1, "preds": preds, "fully_explained": done}, states
+        last_kind = stuck_kind(events[consumed], events)
+    return {"h": h, "events": events, "stuck": events[first], "stuck_index": first + 1, "preds": preds,
+            "fully_explained": done, "last_kind": last_kind}, states
 
 
 def validate(rows, timeout=900):
@@ -328,8 +336,7 @@ def run(tier):
                     fails.append((backend, fl))
         known = {f["sig"] for f in vf.load_findings() if f.get("property") == PID and f.get("status") == "known"}
         for backend, fl in fails:
-            sk = stuck_kind(fl["stuck"], fl["events"])
-            sigs = ["%s:%s:%s" % (PID, p, sk) for p in fl["preds"]]
+            sigs = sigs_of(fl)
             if any(sg not in known for sg in sigs):
                 # about to raise an alarm: make sure it is not an artefact of the search reductions
                 if confirm_unpruned(fl["events"]) == "accepted":
@@ -391,8 +398,18 @@ def run(tier):
         shutil.rmtree(work, ignore_errors=True)
 
 
+def sigs_of(fl):
+    out = []
+    for p in fl["preds"]:
+        kind = SIGKIND.get(p) or fl.get("last_kind") or stuck_kind(fl["stuck"], fl["events"])
+        if p == "Progress" and not any(x.get("e") == "stall" and x.get("pending") for x in fl["events"]):
+            kind = "stall-idle"
+        out.append("%s:%s:%s" % (PID, p, kind))
+    return out
+
+
 def describe(fl):
-    return "+".join(fl["preds"]) + ":" + stuck_kind(fl["stuck"], fl["events"])
+    return "+".join(sigs_of(fl))
 
 
 def replay(path):
